@@ -8,6 +8,8 @@ CONSTANTS
     Topos <- MCAlertOnly
     StopKinds <- BothKinds
     AllowFail = FALSE
+    MaxN = 3
+    MaxE = 4
     InfluxStopF = FALSE
     ReaderDone = TRUE
     AlertCloseOnErr = TRUE
